@@ -386,7 +386,9 @@ func tokens(s string) [][2]int {
 
 var junkBytes = []string{"\"", "'", "{", "}", ";", "+", "\\", "/", "*", "//", "/*", "*/", "\x00", "\xff", "\xc3", "\n", "\r\n", "\t", " ", "a", "é",
 	// a character the lexer treats specially next to a rune of 2, 3 and 4 bytes (widths differ: anything that backs up or peeks by "the last width" is exercised)
-	"+é", "+€", "+😀", "é+", "€+ ", " +é;", "\"é", "é\"", "'€", "/é", "é/", "/*é", "é*/", "//€", "*😀", "{é", "é}", ";€", "\\é", "é\\", "\xe2\x82", "\xf0\x9f\x98", "\u2028", "\ufeff", "\u00a0"}
+	"+é", "+€", "+😀", "é+", "€+ ", " +é;", "\"é", "é\"", "'€", "/é", "é/", "/*é", "é*/", "//€", "*😀", "{é", "é}", ";€", "\\é", "é\\", "\xe2\x82", "\xf0\x9f\x98", "\u2028", "\ufeff", "\u00a0",
+	// line ends and blanks of other kinds
+	"\r", "\r\r", "\n\r", "\f", "\v", "\u0085", "\u3000", " \n", "\t\n", "\\\n", "\\\r\n", "\"\n", "\xef\xbb", "\xef"}
 
 func (w world) RunCase(t *tape.Tape, st *super.Stats) *super.Violation {
 	inc := func(k string) {
@@ -473,6 +475,16 @@ func (w world) RunCase(t *tape.Tape, st *super.Stats) *super.Violation {
 		}
 		base = string(b)
 		inc("base:raw")
+	}
+	if t.Rare(10) && kind != 4 {
+		// something in front of or after the text: a byte-order mark, blank lines, a lone CR, a form feed
+		pre := []string{"\ufeff", "\ufeff\ufeff", "\r", "\n\n", "\f", " \t", "\xef\xbb\xbf\r\n"}[t.Draw(7)]
+		if t.Coin() {
+			base = pre + base
+		} else {
+			base = base + pre
+		}
+		inc("reach:text_with_mark_or_odd_whitespace_around")
 	}
 	withCard := t.Rare(4)
 	cardMode = t.Draw(3)
